@@ -10,7 +10,7 @@ import (
 func lemmaEnc(P *Prog, lm Clause) *Enc {
 	e := &Enc{P: P, key: "lemma." + lm.Pkg + "." + lm.Label, decls: newDecls(), compSort: map[string]string{}, strConsts: map[string]Term{},
 		tidsUsed: map[int]bool{}, ifacesUsed: map[string]*types.Interface{}, oblCount: map[string]int{},
-		paramVals: map[string]Val{}, paramTypes: map[string]types.Type{}}
+		paramVals: map[string]Val{}, paramTypes: map[string]types.Type{}, curBlk: -1}
 	e.pkg = P.ByName[lm.Pkg]
 	e.decls.add("const:hwm0", "(declare-const hwm0 Int)")
 	st := &State{reach: TTrue, heaps: map[string]Term{}, hwm: Term{"hwm0", SInt}}
